@@ -20,6 +20,7 @@ import (
 	"io/fs"
 	"os"
 	"path/filepath"
+	"regexp"
 	"sort"
 	"strings"
 	"testing"
@@ -53,6 +54,10 @@ type source struct {
 
 var corpus []source
 
+// hugeArray over-approximates "declares an array of 2^27 elements or more":
+// any integer literal, shift or exponent that large anywhere in the file.
+var hugeArray = regexp.MustCompile(`\d{9,}|1\s*<<\s*(2[7-9]|[3-6]\d)|\de(9|[1-9]\d)\b|0x[0-9a-fA-F]{8,}`)
+
 func loadCorpus() {
 	if corpus != nil {
 		return
@@ -83,6 +88,12 @@ func loadCorpus() {
 		}
 		data, err := os.ReadFile(p)
 		if err != nil || len(data) > 64<<10 {
+			continue
+		}
+		if hugeArray.Match(data) {
+			// A declared array of a gigabyte or more: the type checker
+			// allocates its zero value at build time (a finding of C04), and
+			// this check builds every source several times in one process.
 			continue
 		}
 		rel, _ := filepath.Rel(base, p)
